@@ -197,6 +197,88 @@ func init() {
 		sb.WriteString("/-- (site, shape, recovers) for every `go` statement of the read request path -/\n")
 		sb.WriteString("def goroutines : List (String × String × Bool) :=\n  [" + strings.Join(gos, ",\n   ") + "]\n\n")
 
+		// ---- consumers: every function body that ranges over a pipeline channel; does it return from inside the
+		// loop (stop reading early) and, if so, does it leave a drain behind?
+		chanNames := map[string]bool{"out": true, "_in": true, "in": true, "req": true, "ch": true, "_res": true}
+		var consumers []string
+		for _, d := range dirs {
+			files, err := goFiles(d)
+			if err != nil {
+				return "", err
+			}
+			for _, rel := range files {
+				_, f, err := parseFile(rel)
+				if err != nil {
+					return "", err
+				}
+				for _, decl := range f.Decls {
+					fd, ok := decl.(*ast.FuncDecl)
+					if !ok || fd.Body == nil {
+						continue
+					}
+					k := 0
+					var bodies []*ast.BlockStmt
+					bodies = append(bodies, fd.Body)
+					ast.Inspect(fd.Body, func(n ast.Node) bool {
+						if fl, ok := n.(*ast.FuncLit); ok {
+							bodies = append(bodies, fl.Body)
+						}
+						return true
+					})
+					for bi, body := range bodies {
+						ranges, early := false, false
+						// direct statements only: do not descend into nested literals
+						var walk func(n ast.Node, inRange bool)
+						walk = func(n ast.Node, inRange bool) {
+							ast.Inspect(n, func(m ast.Node) bool {
+								if m == nil || m == n {
+									return true
+								}
+								if _, ok := m.(*ast.FuncLit); ok {
+									return false
+								}
+								if rs, ok := m.(*ast.RangeStmt); ok {
+									if id, ok := rs.X.(*ast.Ident); ok && chanNames[id.Name] && rs.Value == nil && len(rs.Body.List) > 0 {
+										ranges = true
+										walk(rs.Body, true)
+										return false
+									}
+								}
+								if _, ok := m.(*ast.ReturnStmt); ok && inRange {
+									early = true
+								}
+								return true
+							})
+						}
+						walk(body, false)
+						if !ranges {
+							continue
+						}
+						k++
+						drains := false
+						ast.Inspect(body, func(m ast.Node) bool {
+							if ce, ok := m.(*ast.CallExpr); ok {
+								if id, ok := ce.Fun.(*ast.Ident); ok && id.Name == "drainEntries" {
+									drains = true
+								}
+							}
+							if rs, ok := m.(*ast.RangeStmt); ok && len(rs.Body.List) == 0 {
+								drains = true
+							}
+							return true
+						})
+						_ = bi
+						consumers = append(consumers, fmt.Sprintf("(%s, %v, %v)", leanStr(fmt.Sprintf("%s:%s#%d", strings.TrimPrefix(rel, "reader/"), funcName(fd), k)), early, drains))
+					}
+				}
+			}
+		}
+		if len(consumers) == 0 {
+			return "", fmt.Errorf("no function ranging over a pipeline channel found")
+		}
+		sb.WriteString("/-- (function body, returns from inside its `for … := range <channel>` loop, leaves a drain behind) -/\n")
+		sb.WriteString("def consumers : List (String × Bool × Bool) :=\n  [" + strings.Join(consumers, ",\n   ") + "]\n\n")
+
 		// ---- HTTP handlers
 		files, err := goFiles("reader/controller")
 		if err != nil {
